@@ -130,7 +130,7 @@ func (c *Ctx) closurePurity(r *shape.Result, fi *load.FuncInfo) {
 func CheckC05(c *Ctx) {
 	run := c.Run
 	run.Technique = "stream-shape calculus on every strategy Compute (length, anchor, Hold-fill prefix and fill-taint of the action stream, symbolic in periods and n) + registry coverage + action-constant lint"
-	run.Explanation = "For every type implementing strategy.Strategy the action stream's length is proved to be max(n, warm-up) (hence exactly n once n >= warm-up and never fewer than n), its anchor to be exactly 0 (action i belongs to snapshot i), the prefix inserted by the final Shift to consist of strategy.Hold and to cover every element that was computed from another Shift's fill value (fill-taint), for ALL admissible configurations and ALL n >= 0. Compound and decorator strategies are checked against the contract of the wrapped Strategy interface (at least n actions, exactly n beyond its warm-up, anchor 0). Every type constructed by an AllStrategies registry must have been analysed, and Action values may only originate from the three named constants."
+	run.Explanation = "For every type implementing strategy.Strategy the action stream's length is proved to be max(n, warm-up) (hence exactly n once n >= warm-up and never fewer than n), its anchor to be exactly 0 (action i belongs to snapshot i), the prefix inserted by the final Shift to consist of strategy.Hold and to cover every element that was computed from another Shift's fill value (fill-taint), for ALL admissible configurations and ALL n >= 0. Compound and decorator strategies are checked against the contract of the wrapped Strategy interface (at least n actions, exactly n beyond its warm-up, anchor 0). Every type constructed by an AllStrategies registry must have been analysed, and Action values may only originate from the three named constants. Decorators: while no position is open and the wrapped strategy says Hold, No-Loss and Stop-Loss say Hold and stay not invested, for every ordering of the closing price, the remembered level and 0 (decided on the closure's guarded commands)."
 	run.Trusted = []string{"go/types", "Strategy interface contract for wrapped strategies", "declared IdlePeriod contracts (C02)", "Γ", "Fourier–Motzkin entailment"}
 	strs := StrategyMethods(c.P, "Compute")
 	run.Count("strategy_computes", len(strs))
